@@ -164,7 +164,10 @@ def release_rules(R, F, inst, why):
                 R.ob(inst, fn, a.node, ok, "reader count decremented in %s" % nm, sitekey="dec@" + nm, why="only a reader's own release (or the upgrader draining itself) may decrement the reader count")
             if a.op == "fetch_and":
                 n += 1
-                ok = const_val(a.node["args"][0]) == KREADERS and nm in ("unlock", "try_lock")
+                # the callers that own the writer bit when they clear it: unlock(), the try_lock()
+                # rollback (ownership checked by C22.writer-try) and lock_downgrade() (which may
+                # call unlock() or clear the bit itself)
+                ok = const_val(a.node["args"][0]) == KREADERS and nm in ("unlock", "try_lock", "lock_downgrade")
                 R.ob(inst, fn, a.node, ok, "%s clears only the writer bit" % nm if ok else "%s: fetch_and(%s)" % (nm, const_val(a.node["args"][0])), sitekey="and@" + nm, why="unlock must preserve the reader counts of readers that are backing off")
     for fn in F.functions(qname=CLS + "::readerRelease"):
         n += 1
